@@ -542,30 +542,36 @@ Definition commit_budget (h : hstate) (b : budget) : res hstate :=
 
 Inductive outcome := Done (outs : list N) | Rejected (e : err) | Crashed.
 
+Definition init_usage (q : request) : usage :=
+  {| uRpc := ptInit (qpt q); uStorage := 0; uEgress := 0; uIngress := 0; uRegR := 0; uRegW := 0 |}.
+Definition needs_contract (q : request) : bool := existsb (fun ie => requires_contract (fst ie)) (qprog q).
+Definition needs_final (q : request) : bool := existsb (fun ie => requires_finalization (fst ie)) (qprog q).
+(* revision / updater are only attached when an instruction asks for them *)
+Definition attach (q : request) : bool := needs_contract q || needs_final q.
+Definition ctx_of (q : request) : ctx :=
+  {| xdata := qdata q; xpt := qpt q; xdur := qdur q; xcontract := attach q |}.
+Definition start_of (h : hstate) (q : request) (b1 : budget) : estate :=
+  {| eroots := if attach q then hroots h else []; ebudget := b1; ecost := cost0;
+     eusage := usage0; etemps := []; ewrites := [] |}.
+Definition storage_only (u : usage) : usage :=
+  {| uRpc := 0; uStorage := uStorage u; uEgress := 0; uIngress := 0; uRegR := 0; uRegW := 0 |}.
+
 Definition run_program (h : hstate) (q : request) : hstate * outcome :=
-  (* processPayment: AccountManager.Budget *)
+  (* processAccountPayment / AccountManager.Budget *)
   if qamount q =? 0 then (h, Rejected EInvalid) else
   if hbal h <? qamount q then (h, Rejected EInsufficient) else
-  let b0 := {| bmax := qamount q; buse := usage0 |} in
   (* pay for the execution: budget.Spend(RPCRevenue: InitBaseCost) *)
-  match spend b0 {| uRpc := ptInit (qpt q); uStorage := 0; uEgress := 0; uIngress := 0; uRegR := 0; uRegW := 0 |} with
+  match spend {| bmax := qamount q; buse := usage0 |} (init_usage q) with
   | Panic => (h, Crashed)
   | Err e => (h, Rejected e)            (* deferred budget.Rollback: nothing is debited *)
   | Ok b1 =>
-      let needc := existsb (fun ie => requires_contract (fst ie)) (qprog q) in
-      let needf := existsb (fun ie => requires_finalization (fst ie)) (qprog q) in
-      let attach := needc || needf in
-      if attach && negb (qcontract q) then (h, Rejected EInvalid) else
-      let x := {| xdata := qdata q; xpt := qpt q; xdur := qdur q; xcontract := attach |} in
-      let s0 := {| eroots := if attach then hroots h else []; ebudget := b1; ecost := cost0;
-                   eusage := usage0; etemps := []; ewrites := [] |} in
-      let '(s, r) := run_instrs x (qprog q) s0 in
+      if attach q && negb (qcontract q) then (h, Rejected EInvalid) else
+      let '(s, r) := run_instrs (ctx_of q) (qprog q) (start_of h q b1) in
       match r with
       | Panic => (h, Crashed)
       | Err e =>
           (* rollback: refund the storage spending, commit the rest *)
-          match refund (ebudget s) {| uRpc := 0; uStorage := uStorage (eusage s); uEgress := 0;
-                                      uIngress := 0; uRegR := 0; uRegW := 0 |} with
+          match refund (ebudget s) (storage_only (eusage s)) with
           | Ok b2 => match commit_budget h b2 with
                      | Ok h' => (h', Rejected e)
                      | Err _ => (h, Rejected e)      (* the error of the deferred rollback is dropped *)
@@ -575,7 +581,7 @@ Definition run_program (h : hstate) (q : request) : hstate * outcome :=
           end
       | Ok outs =>
           (* commit *)
-          if needf then
+          if needs_final q then
             match qfinal q with
             | None => (h, Rejected EInvalid)     (* committed = true: rollback is a no-op, the budget is rolled back *)
             | Some n =>
@@ -620,12 +626,14 @@ Inductive op :=
 | OpInit (x : ctx) (roots : list N) (bal amount : N)   (* newExecutor over a fresh budget that paid the init cost *)
 | OpInstr (i : instr) (e : env)
 | OpRollback                                           (* pe.rollback() *)
-| OpCommit.                                            (* pe.commit() of a program that needs no finalization *)
+| OpCommit                                             (* pe.commit() of a program that needs no finalization *)
+| OpProgram (h : hstate) (q : request).                (* one RPCExecuteProgram through handleRPCExecute *)
 
 Inductive obs :=
 | OInit (ok : bool)
 | OInstr (r : res N) (roots : list N) (spent coll : N) (ntemps : N)
-| OEnd (r : res unit) (bal : N) (ntemps : N).
+| OEnd (r : res unit) (bal : N) (ntemps : N)
+| OProg (o : outcome) (bal rev : N) (roots : list N) (ntemps : N).
 
 Record cstate := { cx : ctx; cs : estate; cbal : N; ctemps : N }.
 Definition dummy_pd : pdata := {| plen := 0; pget := fun _ => 0 |}.
@@ -681,6 +689,17 @@ Definition cstep (c : cstate) (o : op) : cstate * obs :=
       | Err e => (c, OEnd (Err e) (cbal c) (ctemps c))
       | Panic => (c, OEnd Panic (cbal c) (ctemps c))
       end
+  | OpProgram h q =>
+      let '(h', o) := run_program h q in
+      (c, OProg o (hbal h') (hrev h') (hroots h') (N.of_nat (length (htemps h'))))
+  end.
+
+Definition outcome_eqb (a b : outcome) : bool :=
+  match a, b with
+  | Done x, Done y => list_eqb N.eqb x y
+  | Rejected _, Rejected _ => true
+  | Crashed, Crashed => true
+  | _, _ => false
   end.
 
 Definition class_eqb {A} (a b : res A) : bool :=
@@ -704,6 +723,8 @@ Definition obs_eqb (a b : obs) : bool :=
   | OInstr r l s c t, OInstr r' l' s' c' t' =>
       resn_eqb r r' && list_eqb N.eqb l l' && (s =? s') && (c =? c') && (t =? t')
   | OEnd r b t, OEnd r' b' t' => class_eqb r r' && (b =? b') && (t =? t')
+  | OProg o b v l t, OProg o' b' v' l' t' =>
+      outcome_eqb o o' && (b =? b') && (v =? v') && list_eqb N.eqb l l' && (t =? t')
   | _, _ => false
   end.
 
